@@ -34,6 +34,13 @@ def handle (j : Json) : IO Unit := do
   let enabled := jbool (jget sc "enabled")
   let refuse := (jarr (jget sc "refuse")).map jbool
   let invalid := jbool (jget sc "invalid")
+  -- size cases: the body is exactly `body_size` bytes long and translators.anthropic.max_message_size is `max_msg`
+  -- (0 = not configured: 10 MiB). A body longer than the limit is refused by the handler itself (413), like an invalid one
+  let sized := jbool (jget sc "size_case")
+  let bodySize := jnat (jget sc "body_size")
+  let maxMsg := jnat (jget sc "max_msg")
+  let limit := if maxMsg == 0 then 10 * 1024 * 1024 else maxMsg
+  let oversize := sized && bodySize > limit
   -- the endpoints after filtering: healthy (not `down`) and serving the model (`has`; absent = everybody does)
   let down := (jarr (jget sc "down")).map jbool
   let has := (jarr (jget sc "has")).map jbool
@@ -48,7 +55,7 @@ def handle (j : Json) : IO Unit := do
     else if refuses i then attemptOf "refuse" false default 0 else .ok ⟨200, [], []⟩
   let select (l : List Nat) : Option Nat := l.head?      -- priority balancer, priorities fall with the index
   let clientBody : List UInt8 := [1]                      -- bodies are compared through `identical`; the translation changes the bytes
-  let r := run enabled genSupport (fun b => 0 :: b) (!invalid) select outcome eps clientBody
+  let r := run enabled genSupport (fun b => 0 :: b) (!invalid && !oversize) select outcome eps clientBody
   let mObs := r.observed enabled (fun i => resolvedNative (types.getD i "")) clientBody
   -- a refused connection never reaches the backend's recorder
   let mDeliveries := mObs.deliveries.filter (fun d => !refuses d.ep && faultOf d.ep != "open")
@@ -59,20 +66,20 @@ def handle (j : Json) : IO Unit := do
   let cStatus := jnat (jget impl "status")
   -- the client's status is the C05 handler model's business (incl. its pinned-defect variants)
   let hmode : Olla.Model.Handler.Mode := if r.decision.isPassthrough then .passthrough (r.decision.targets.map (·.id)) else .translate
-  let hproblem : Option Olla.Model.Handler.ReqProblem := if invalid then some .invalid else none
+  let hproblem : Option Olla.Model.Handler.ReqProblem := if oversize then some .oversize else if invalid then some .invalid else none
   let hrq : Olla.Model.Handler.Req := { route := .anthropic, stream := jbool (jget sc "stream"), mode := hmode, problem := hproblem }
   let houtcome (i : Nat) : Attempt :=
     if faultOf i != "" then attemptOf (faultOf i) false default 0
     else if refuses i then attemptOf "refuse" false default 0 else .ok ⟨200, [("Content-Type", "application/json")], [1]⟩
   let mStatus : Nat := (Olla.Model.Handler.serve Olla.Model.Handler.active hrq (fun _ => .completion) 1 select houtcome (eps.map (·.id))).status
-  let mStats : Nat × Nat := if r.decision.isPassthrough then (1, 0) else (0, 1)
+  let mStats : Nat × Nat := if r.decision.isPassthrough && !oversize then (1, 0) else (0, 1)
   let stats := (jnat (jget impl "stat_passthrough"), jnat (jget impl "stat_translation"))
-  let mNative := (match r.result with | .served _ => true | _ => false) && r.decision.isPassthrough && !invalid
+  let mNative := (match r.result with | .served _ => true | _ => false) && r.decision.isPassthrough && !invalid && !oversize
   let agree := deliveries == mDeliveries && modeHeader == r.modeHeader && cStatus == mStatus && stats == mStats &&
     jbool (jget impl "native_answer") == mNative
   -- the property on the implementation's own observations
   let nativeOf : Nat → Bool := fun i => resolvedNative (types.getD i "")
-  let obs : Observed := { enabled := enabled, native := nativeOf, deliveries := deliveries, modeHeader := modeHeader, proxied := (!invalid) }
+  let obs : Observed := { enabled := enabled, native := nativeOf, deliveries := deliveries, modeHeader := modeHeader, proxied := (!invalid && !oversize) }
   let spec := holds obs
   let sig := if spec then "" else
     if !noAnthropicToNonNative obs then "anthropic-body-to-endpoint-without-native-support"
@@ -80,15 +87,19 @@ def handle (j : Json) : IO Unit := do
       (if !enabled then "passthrough-while-disabled"
        else if deliveries.any (fun d => untranslated d && !d.identical) then "passthrough-body-not-byte-identical"
        else "passthrough-to-wrong-path")
-    else if !translatedToChatPath obs then "translated-request-not-on-openai-chat-path"
+    else if !translatedToChatPath obs then
+      -- a body that is no longer a JSON document at all, on the passthrough path, with other bytes than the client's
+      (if deliveries.any (fun d => d.fmt == .other && d.path == messagesPath && !d.identical) && modeHeader == some "passthrough"
+       then "passthrough-body-not-byte-identical" else "translated-request-not-on-openai-chat-path")
     else if !noMixing obs then "passthrough-and-translation-mixed-in-one-request"
     else "x-olla-mode-header-wrong"
   let cls := String.join (types.map (fun t => if nativeBy genSupport t then "N" else if resolvedNative t then "a" else "o"))
-  let branch := (if hist then "history:" else "") ++ (if eps.isEmpty then "no-candidates" else if invalid then "rejected" else if r.decision.isPassthrough then "passthrough" else "translation") ++
+  let branch := (if hist then "history:" else "") ++ (if sized then "size:" else "") ++ (if eps.isEmpty then "no-candidates" else if oversize then "rejected-over-limit" else if invalid then "rejected" else if r.decision.isPassthrough then "passthrough" else "translation") ++
     (if (selectedList r.trace).length > 1 then "-failover" else "") ++
     (match r.result with | .exhausted => "-exhausted" | _ => "") ++ ":" ++ cls
   let note := if spec && agree then "" else
     (if hist then s!"history {jnat (jget sc "hist")} step {jnat (jget sc "step")} (one stack since step 0; fleet move '{jstr (jget sc "move")}'), model {jstr (jget sc "model")}, down {down}, serves the model {has}, candidates {eps.map (·.id)}: " else "") ++
+    (if sized then s!"body of exactly {bodySize} bytes ({jstr (jget sc "anchor")}; padding '{jstr (jget sc "fill")}' shifted by {jnat (jget sc "shift")}), max_message_size {maxMsg} (limit {limit}), backends received bodies of {(jarr (jget impl "deliveries")).map (fun d => jnat (jget d "len"))} bytes: " else "") ++
     s!"types {types} passthrough_enabled {enabled} refuse {refuse} invalid {invalid}: client {cStatus} X-Olla-Mode '{modeS}', backends got {deliveries.map showD}, stats {stats}; model {mStatus} mode {r.modeHeader}, {mDeliveries.map showD}, stats {mStats}"
   emit case agree spec branch sig note
     (Json.mkObj [("decision", toJson (if r.decision.isPassthrough then "passthrough" else "translation")),
